@@ -241,9 +241,33 @@ func strs[X any](xs []X, f func(X) string) []string {
 
 func inputStr(i core.BuildInput) string { return i.String() }
 
+// Live is a real target under construction or mutation, with the bookkeeping the read-back needs (the order in which map
+// entries and dependencies were inserted).
+type Live struct {
+	Sp       *Spec
+	T        *core.BuildTarget
+	depOrder []Label
+	seen     map[Label]bool
+}
+
+func (lv *Live) note(i core.BuildInput) {
+	if l, ok := i.Label(); ok {
+		if k := FromCore(l); !lv.seen[k] {
+			lv.seen[k] = true
+			lv.depOrder = append(lv.depOrder, k)
+		}
+	}
+}
+
 // Build performs the recipe on a fresh target and reads the stored state back. It also installs the recipe's environment
 // and configuration (process-global: hash the target before building the next one).
 func Build(sp *Spec) (*core.BuildTarget, *T) {
+	lv := Construct(sp)
+	return lv.T, lv.ReadBack()
+}
+
+// Construct performs the recipe on a fresh target (and installs the recipe's environment and configuration).
+func Construct(sp *Spec) *Live {
 	st := State()
 	st.Config.Build.Config, st.Config.Build.FallbackConfig = sp.Config, sp.FallbackConfig
 	for _, n := range EnvPool {
@@ -256,15 +280,8 @@ func Build(sp *Spec) (*core.BuildTarget, *T) {
 	}
 
 	t := core.NewBuildTarget(sp.Label.Core())
-	depOrder, seen := []Label{}, map[Label]bool{}
-	note := func(i core.BuildInput) {
-		if l, ok := i.Label(); ok {
-			if k := FromCore(l); !seen[k] {
-				seen[k] = true
-				depOrder = append(depOrder, k)
-			}
-		}
-	}
+	lv := &Live{Sp: sp, T: t, depOrder: []Label{}, seen: map[Label]bool{}}
+	note := lv.note
 	addDeps := func() {
 		for _, d := range sp.Deps {
 			t.AddDependency(d.Core())
@@ -409,14 +426,19 @@ func Build(sp *Spec) (*core.BuildTarget, *T) {
 		}
 	}
 
-	// ---- read back
-	m := &T{Label: FromCore(t.Label), Deps: depOrder, Hashes: t.Hashes, Outs: t.DeclaredOutputs(), Licences: t.Licences,
-		OptionalOuts: t.OptionalOutputs, Labels: t.Labels, Secrets: t.Secrets, Binary: t.IsBinary, Subrepo: t.IsSubrepo,
+	return lv
+}
+
+// ReadBack reads the stored state of the real target into the attribute record of Model/C08.v.
+func (lv *Live) ReadBack() *T {
+	st, sp, t, depOrder, seen := State(), lv.Sp, lv.T, append([]Label{}, lv.depOrder...), lv.seen
+	m := &T{Label: FromCore(t.Label), Deps: depOrder, Hashes: append([]string{}, t.Hashes...), Outs: append([]string{}, t.DeclaredOutputs()...), Licences: append([]string{}, t.Licences...),
+		OptionalOuts: append([]string{}, t.OptionalOutputs...), Labels: append([]string{}, t.Labels...), Secrets: append([]string{}, t.Secrets...), Binary: t.IsBinary, Subrepo: t.IsSubrepo,
 		Sandbox: t.Sandbox, Command: t.Command, HasCommands: t.Commands != nil, Config: st.Config.Build.Config,
 		FallbackConfig: st.Config.Build.FallbackConfig, NeedsTransitive: t.NeedsTransitiveDependencies,
 		OutputIsComplete: t.OutputIsComplete, Stamp: t.Stamp, Filegroup: t.IsFilegroup, TextFile: t.IsTextFile,
 		RemoteFile: t.IsRemoteFile, Local: t.Local, SrcListFiles: t.SrcListFiles, ExitOnError: t.ExitOnError,
-		Requires: t.Requires, PreBuild: t.PreBuildFunction != nil, PostBuild: t.PostBuildFunction != nil,
+		Requires: append([]string{}, t.Requires...), PreBuild: t.PreBuildFunction != nil, PostBuild: t.PostBuildFunction != nil,
 		HasPassEnv: t.PassEnv != nil, FileContent: t.FileContent, IsTest: t.Test != nil}
 	// check the tracked insertion order of the dependency slice against the accessor
 	decl := t.DeclaredDependencies()
@@ -520,8 +542,130 @@ func Build(sp *Spec) (*core.BuildTarget, *T) {
 		m.HasTestCommands = t.Test.Commands != nil
 		m.TestCommands = kvs(sp.TestCommands, t.Test.Commands)
 	}
-	return t, m
+	return m
 }
+
+// Mut is one change the build makes to a target after it has been constructed (what a post-build function can do through
+// add_out / set_command / add_label / add_dep / add_licence / add_entry_point, and what the outputs found in an output
+// directory do). Kind: "out", "named_out", "optional_out", "command", "label", "dep", "entry_point", "licence".
+type Mut struct {
+	Kind string `json:"kind"`
+	K    string `json:"k,omitempty"`
+	V    string `json:"v,omitempty"`
+	L    Label  `json:"l,omitempty"`
+}
+
+// Attr is the attribute of C08's list that the mutation changes.
+func (m Mut) Attr() string {
+	switch m.Kind {
+	case "out":
+		return "outs"
+	case "named_out":
+		return "named_outs"
+	case "optional_out":
+		return "optional_outs"
+	case "label":
+		return "labels"
+	case "dep":
+		return "deps"
+	case "entry_point":
+		return "entry_points"
+	}
+	return m.Kind
+}
+
+// Apply performs the change on the real target through the same calls the builtins make, and keeps the recipe's bookkeeping
+// (insertion orders of map entries) in step. Reports whether the call was made (a change the adders would panic on is skipped).
+func (lv *Live) Apply(m Mut) bool {
+	t, sp := lv.T, lv.Sp
+	switch m.Kind {
+	case "out": // add_out(name, out)
+		if m.V == "" {
+			return false
+		}
+		t.AddOutput(m.V)
+		sp.Outs = append(sp.Outs, m.V)
+	case "named_out": // add_out(name, group, out)
+		if m.V == "" {
+			return false
+		}
+		t.AddNamedOutput(m.K, m.V)
+		for i := range sp.NamedOuts {
+			if sp.NamedOuts[i].Key == m.K {
+				sp.NamedOuts[i].Vals = append(sp.NamedOuts[i].Vals, m.V)
+				return true
+			}
+		}
+		sp.NamedOuts = append(sp.NamedOuts, Group{Key: m.K, Vals: []string{m.V}})
+	case "optional_out":
+		if m.V == "" {
+			return false
+		}
+		t.AddOptionalOutput(m.V)
+		sp.OptionalOuts = append(sp.OptionalOuts, m.V)
+	case "command": // set_command(name, cmd) / set_command(name, config, cmd)
+		if m.K == "" {
+			t.Command = m.V
+			sp.Command = m.V
+			return true
+		}
+		if t.Command != "" || m.V == "" {
+			return false // AddCommand panics / set_command treats an empty command as the one-argument form
+		}
+		t.AddCommand(m.K, m.V)
+		sp.HasCommands = true
+		for i := range sp.Commands {
+			if sp.Commands[i].K == m.K {
+				sp.Commands[i].V = m.V
+				return true
+			}
+		}
+		sp.Commands = append(sp.Commands, KV{m.K, m.V})
+	case "label": // add_label
+		before := len(t.Labels)
+		t.AddLabel(m.V)
+		if len(t.Labels) > before {
+			sp.Labels = append(sp.Labels, m.V)
+		}
+	case "dep": // add_dep
+		if m.L.Core() == t.Label {
+			return false
+		}
+		t.AddDependency(m.L.Core())
+		lv.note(m.L.Core())
+		sp.Deps = append(sp.Deps, m.L)
+	case "licence":
+		t.AddLicence(m.V)
+		sp.Licences = append(sp.Licences, m.V)
+	case "entry_point": // add_entry_point: panics on a name that is a named output group or an existing entry point
+		if _, ok := t.EntryPoints[m.K]; ok || t.IsFilegroup || t.NamedOutputs(m.K) != nil {
+			return false
+		}
+		t.AddEntryPoint(m.K, m.V)
+		sp.EntryPoints = append(sp.EntryPoints, KV{m.K, m.V})
+	default:
+		panic("mutation kind " + m.Kind)
+	}
+	return true
+}
+
+// RuleHash calls the REAL build.RuleHash on the live target and returns a copy of its result.
+func (lv *Live) RuleHash(runtime, postBuild bool) []byte {
+	return append([]byte{}, build.RuleHash(State(), lv.T, runtime, postBuild)...)
+}
+
+// FreshHash is the hash of the attributes as they are now: the real RuleHash on the same object with the memo cleared
+// (and restored afterwards).
+func (lv *Live) FreshHash(runtime bool) []byte {
+	saved := lv.T.RuleHash
+	lv.T.RuleHash = nil
+	h := append([]byte{}, build.RuleHash(State(), lv.T, runtime, false)...)
+	lv.T.RuleHash = saved
+	return h
+}
+
+func (lv *Live) CouldModify() bool { return lv.T.BuildCouldModifyTarget() }
+func (lv *Live) Memoised() bool    { return len(lv.T.RuleHash) != 0 }
 
 func strsL(ls []Label) []core.BuildLabel {
 	out := make([]core.BuildLabel, len(ls))
